@@ -85,8 +85,9 @@ theorem boydSplit_leafNums (t t' : Tree) (h : boydSplit t = .ok t') : t'.leafNum
 
 theorem boydSplit_words (t t' : Tree) (h : boydSplit t = .ok t') :
     (t'.leaves.map fun l => (l.num, l.fields.word, l.fields.label)).Perm (t.leaves.map fun l => (l.num, l.fields.word, l.fields.label)) := by
-  simpa [Lemmas.Boyd.toksL, Lemmas.Boyd.tok] using
-    Lemmas.Boyd.boydNode_toks t [t'] (boydSplit_ok t t' h)
+  have := Lemmas.Boyd.boydNode_toks t [t'] (boydSplit_ok t t' h)
+  simp only [Lemmas.Boyd.toksL, List.flatMap_cons, List.flatMap_nil, List.append_nil] at this
+  exact this
 
 theorem boydSplit_sentence (t t' : Tree) (h : boydSplit t = .ok t') (hn : t.leafNums.Nodup) :
     (t'.terminals.map fun l => (l.fields.word, l.fields.label)) = (t.terminals.map fun l => (l.fields.word, l.fields.label)) := by
